@@ -124,3 +124,7 @@ def decomposition(prefix=""):
         "q_transposed": matrix("QT"),
         "q_transposed_inverse": matrix("QTi"),
     })
+
+
+from . import interp as _interp
+_interp.OPAQUE_ADT_FACTORIES["TropicalSubGraphId"] = lambda name: GraphIdVal(name)
